@@ -24,6 +24,7 @@ from .types import (
     TSet,
     TStr,
     TTuple,
+    Ite,
     Unsupported,
     canon,
     lift,
@@ -357,6 +358,28 @@ class BuiltinMixin:
             h = self.extern_handler("getattr:" + obj.dotted)
             if h is not None:
                 return h(self, args, kwargs, node, None)
+        if isinstance(name, SV) and name.ty == TStr and isinstance(obj, SV) and isinstance(obj.ty, TRec):
+            # getattr(record, <symbolic name>, default): a case split over the optional TEXT fields of the record; that the name is
+            # not the name of a field of another type is an obligation (the contract's precondition has to provide it)
+            from .types import TOpt as _TOpt
+
+            oty = _TOpt(TStr)
+            text = [f for f, t in obj.ty.fields.items() if isinstance(t, _TOpt) and t.elem == TStr]
+            other = [f for f in obj.ty.fields if f not in text]
+            no_other = lift(True, TBool)
+            for f in other:
+                no_other = no_other & ~(name == f)
+            self.oblige("attr", no_other, node, "getattr with a symbolic name must not name a non-text field")
+            self.assume(no_other)
+            default = args[2] if len(args) > 2 else None
+            if default is not None and not (isinstance(default, SV) and default.ty == oty):
+                raise Unsupported("getattr with symbolic name: default other than None")
+            r = oty.none() if default is None else default
+            for f in text:
+                r = Ite(name == f, obj.ty.get(obj, f), r)
+            return r
+        if isinstance(name, SV) and name.ty == TStr and isinstance(obj, SV) and isinstance(obj.ty, TRef):
+            return DynAttr(obj, name)
         raise Unsupported("getattr with symbolic name")
 
     def bi_hasattr(self, args, kwargs, node):
@@ -367,6 +390,10 @@ class BuiltinMixin:
             if isinstance(obj.ty, TRef) and obj.ty.field_owner(name):
                 return True
             return self.find_method_for_type(obj.ty, name) is not None
+        if isinstance(name, SV) and name.ty == TStr and isinstance(obj, SV) and isinstance(obj.ty, TRef):
+            # whether an object of an external class has an attribute of a symbolic name: an uninterpreted predicate
+            f = specfn.ufn("has_attr_" + obj.ty.cls, z3.IntSort(), z3.StringSort(), z3.BoolSort())
+            return SV(f(obj.t, name.t), TBool)
         raise Unsupported("hasattr")
 
     def bi_cast(self, args, kwargs, node):
@@ -813,6 +840,13 @@ class BuiltinMixin:
         if name == "copy":
             return s
         raise Unsupported(f"list.{name}")
+
+
+class DynAttr:
+    """getattr(obj, <symbolic name>) on a heap object of an external class: callable through the contract 'ext:<Cls>.<dynamic>'"""
+
+    def __init__(self, obj, name):
+        self.obj, self.name = obj, name
 
 
 class _EmptySet:
